@@ -56,6 +56,12 @@ theorem code_facts :
 
 /-- the closed facts about the former witnesses (repaired defects) and the non-vacuity documents -/
 theorem code_facts_regress :
+    -- 7d
+    (validate codeTable {} W.dCyclicHeader = true ∧ specVerdict {} W.dCyclicHeader = .accept ∧
+      validate codeTable {} W.dCyclicHeaderExtra = false ∧ specVerdict {} W.dCyclicHeaderExtra = .reject ∧
+      anyNode (exclNode knownUncovered {}) W.dCyclicHeaderExtra = false ∧
+      validate codeTable {} W.dCyclicHeaderStyle = false ∧ specVerdict {} W.dCyclicHeaderStyle = .reject ∧
+      anyNode (exclNode knownUncovered {}) W.dCyclicHeaderStyle = false) ∧
     -- 7c
     (validate codeTable {} W.dEncMasked = false ∧ specVerdict {} W.dEncMasked = .reject ∧
       validate codeTable {} W.dEncBadKey = false ∧ specVerdict {} W.dEncBadKey = .reject ∧
@@ -393,7 +399,7 @@ theorem option_regex_only (o : Opts) (b : Bool) (v : Viol) (h : v.rule ≠ "badP
 
 /-! ### History independence -/
 
-/-- every use of the process-wide cache of compiled patterns was read; document validation (everything but
+/-- every use of the process-wide cache of compiled patterns (table `C04PatternCache`) was read; document validation (everything but
 `Schema.visitJSONString`, the value validation of C01) never consults it, and nothing creates an entry -/
 theorem pattern_cache_unused :
     Gen.c04PatternCacheUnrecognised = [] ∧ codeTable.cacheRead = false ∧ codeTable.cacheWrite = false := by
@@ -446,6 +452,30 @@ theorem witness_encoding_header_error_dropped :
       anyNode (exclBelow knownUncovered {}) W.dEncHeader = true ∧ anyNode (exclLocal {}) W.dEncHeader = false :=
   code_facts.2.2.2.2.2.2
 
+/-! ### Headers that contain themselves (4c7d612) -/
+
+/-- a header met again below itself (through the encoding headers of its own content) is accepted at once by
+`Header.Validate`, under every option set and whatever it carries, and the specification counts no violation at
+that occurrence: the object is judged where it is met first, which is an ancestor on the same path. The guard
+every call of `Header.Validate` carries in the table fails there (no child is visited, no check made), and the
+containment relation of the property does not continue below the mark either -/
+theorem header_met_again_is_silent (T : Table) (o : Opts) (a : Attrs) (kids : List (String × Doc)) (vs : List Bool)
+    (h : a.flag "again" = true) :
+    localOK T o (.node .header a kids) vs = true ∧ rulesOK o (.node .header a kids) = true ∧
+    litHolds o a "@not:cond:h == header" = false ∧ (∀ pos, specAct .header a pos = false) := by
+  exact ⟨by simp [localOK, localOKp, Doc.kind, Doc.attrs, headerOKCode, h],
+         by simp [rulesOK, violations, Doc.kind, Doc.attrs, h], by simp [litHolds, h], by simp [specAct, h]⟩
+
+/-- what this means for `violation_rejected`: on a document with such a cycle the model tree holds the header
+once with its content, and the mark below it carries nothing; a violation in the header or in what it contains is
+found at the first occurrence — rejected, outside every exclusion class — while the cycle alone is accepted -/
+theorem regression_cyclic_header :
+    validate codeTable {} W.dCyclicHeader = true ∧ specVerdict {} W.dCyclicHeader = .accept ∧
+      validate codeTable {} W.dCyclicHeaderExtra = false ∧ specVerdict {} W.dCyclicHeaderExtra = .reject ∧
+      anyNode (exclNode knownUncovered {}) W.dCyclicHeaderExtra = false ∧
+      validate codeTable {} W.dCyclicHeaderStyle = false ∧ specVerdict {} W.dCyclicHeaderStyle = .reject ∧
+      anyNode (exclNode knownUncovered {}) W.dCyclicHeaderStyle = false := code_facts_regress.1
+
 /-! ### Regression theorems: former witnesses of repaired defects (model = specification on them; the inputs
 stay in corpus/C04, so a regression of the code is reported with that input) -/
 
@@ -458,7 +488,7 @@ theorem regression_encoding_not_masked_and_nested_servers :
       validate codeTable {} W.dOpServer = false ∧ specVerdict {} W.dOpServer = .reject ∧
       anyNode (exclNode knownUncovered {}) W.dOpServer = false ∧
       validate codeTable {} W.dPathItemServer = false ∧ specVerdict {} W.dPathItemServer = .reject ∧
-      anyNode (exclNode knownUncovered {}) W.dPathItemServer = false := code_facts_regress.1
+      anyNode (exclNode knownUncovered {}) W.dPathItemServer = false := code_facts_regress.2.1
 
 /-- 9d56ffd: an example that gives only `externalValue` under a string schema is accepted; an example next to
 it whose value violates the schema is still rejected (and accepted once examples validation is switched off) -/
@@ -466,12 +496,12 @@ theorem regression_external_example :
     validate codeTable {} W.dExternal = true ∧ specVerdict {} W.dExternal = .accept ∧
       validate codeTable { exDisabled := true } W.dExternal = true ∧
       validate codeTable {} W.dExternalBad = false ∧ specVerdict {} W.dExternalBad = .reject ∧
-      validate codeTable { exDisabled := true } W.dExternalBad = true := code_facts_regress.2.1
+      validate codeTable { exDisabled := true } W.dExternalBad = true := code_facts_regress.2.2.1
 
 /-- 78418b3: a header object with `"bogus": 1` is rejected -/
 theorem regression_header_extra :
     validate codeTable {} W.d28a = false ∧ specVerdict {} W.d28a = .reject ∧
-      anyNode (exclNode knownUncovered {}) W.d28a = false := code_facts_regress.2.2.1
+      anyNode (exclNode knownUncovered {}) W.d28a = false := code_facts_regress.2.2.2.1
 
 /-- 3a27745: a header whose example violates its schema is rejected, accepted once examples validation is
 switched off; the matching example is accepted -/
@@ -481,7 +511,7 @@ theorem regression_header_example :
       validate codeTable { exDisabled := true } W.dHeaderExample = true ∧
       specVerdict { exDisabled := true } W.dHeaderExample = .accept ∧
       validate codeTable {} W.dHeaderExampleOK = true ∧ specVerdict {} W.dHeaderExampleOK = .accept :=
-  code_facts_regress.2.2.2.1
+  code_facts_regress.2.2.2.2.1
 
 /-- 78418b3: an encoding object with an unsupported style, or with an extra field, is rejected; a supported
 style with an extension field is accepted -/
@@ -491,20 +521,20 @@ theorem regression_encoding_validated :
       validate codeTable {} W.dEncExtra = false ∧ specVerdict {} W.dEncExtra = .reject ∧
       anyNode (exclNode knownUncovered {}) W.dEncExtra = false ∧
       validate codeTable {} W.dEncOK = true ∧ specVerdict {} W.dEncOK = .accept :=
-  code_facts_regress.2.2.2.2.1
+  code_facts_regress.2.2.2.2.2.1
 
 /-- 3a27745: `example` next to `examples` in a header object is rejected, whatever the examples option -/
 theorem regression_header_example_and_examples :
     validate codeTable {} W.dHeaderBoth = false ∧ specVerdict {} W.dHeaderBoth = .reject ∧
       validate codeTable { exDisabled := true } W.dHeaderBoth = false ∧
       specVerdict { exDisabled := true } W.dHeaderBoth = .reject :=
-  code_facts_regress.2.2.2.2.2.1
+  code_facts_regress.2.2.2.2.2.2.1
 
 /-! ### Non-vacuity -/
 
 /-- a conforming document outside every exclusion class: accepted, by model and specification -/
 example : conformingB {} W.good = true ∧ anyNode (exclNode knownUncovered {}) W.good = false ∧
-    validate codeTable {} W.good = true := code_facts_regress.2.2.2.2.2.2.1
+    validate codeTable {} W.good = true := code_facts_regress.2.2.2.2.2.2.2.1
 
 /-- a violation outside the exclusion classes, three containers deep (a default that violates its schema,
 under `items` of a schema without `type`): rejected under the default options, accepted once the option
@@ -514,17 +544,17 @@ example : specVerdict {} W.dDeepDefault = .reject ∧ anyNode (exclNode knownUnc
     validate codeTable { defDisabled := true } W.dDeepDefault = true ∧
     validate codeTable { exDisabled := true } W.dDeepDefault = false ∧
     validate codeTable { patDisabled := true, fmtEnabled := true, extProhibited := true } W.dDeepDefault = false :=
-  code_facts_regress.2.2.2.2.2.2.2.1
+  code_facts_regress.2.2.2.2.2.2.2.2.1
 
 /-- the template rule does fire when the counts differ, and the benign twin of the header extra field passes -/
 example : validate codeTable {} W.dMissing = false ∧ specVerdict {} W.dMissing = .reject ∧
     validate codeTable {} W.d28aOK = true ∧ specVerdict {} W.d28aOK = .accept :=
-  code_facts_regress.2.2.2.2.2.2.2.2.1
+  code_facts_regress.2.2.2.2.2.2.2.2.2.1
 
 /-- the template rule is applied to every operation of a path item separately: `get` declares the
 variable, `put` does not — rejected, outside every exclusion class -/
 example : validate codeTable {} W.dSecondOp = false ∧ specVerdict {} W.dSecondOp = .reject ∧
     anyNode (exclNode knownUncovered {}) W.dSecondOp = false :=
-  code_facts_regress.2.2.2.2.2.2.2.2.2
+  code_facts_regress.2.2.2.2.2.2.2.2.2.2
 
 end KinModel.DocValidate
